@@ -960,16 +960,10 @@ example :
     their inverses with mirrors) appended after arbitrary maps `pre` and followed by arbitrary maps
     `post` — all through `append_mapping` — is invisible: the whole maps like `pre` then `post`, for
     every position (also inside content deleted by maps of `ms`) and either association side. -/
-theorem mirror_roundtrip_embedded (pre ms post : List StepMap) (hms : ms ≠ []) (hpost : post ≠ [])
+theorem mirror_roundtrip_embedded (pre ms post : List StepMap)
     (h : ∀ m ∈ ms, StrictWF 0 m.ranges) (p a : Int) :
     (((Mapping.ofMaps pre).appendMapping (palindrome ms)).appendMapping (Mapping.ofMaps post)).map p a =
       some (mapFold post a (mapFold pre a p)) := by
-  have hpalne : (palindrome ms).maps ≠ [] := by
-    rw [(palindrome_isPalindrome ms).maps]
-    cases ms with
-    | nil => exact absurd rfl hms
-    | cons x xs => simp
-  have hpostne : (Mapping.ofMaps post).maps ≠ [] := hpost
   obtain ⟨A, hAdef⟩ : ∃ A, A = (Mapping.ofMaps pre).appendMapping (palindrome ms) := ⟨_, rfl⟩
   rw [← hAdef]
   have hA : MirrorFunctional A := by
@@ -977,44 +971,98 @@ theorem mirror_roundtrip_embedded (pre ms post : List StepMap) (hms : ms ≠ [])
     exact appendMapping_functional _ _ (ofMaps_functional pre) (palindrome_functional ms)
   have hAfrom : A.from_ = 0 := by rw [hAdef]; exact (appendMapping_mirror _ _).2.1
   have hAto : A.to = A.maps.length := by
-    have hl : (palindrome ms).maps.length ≠ 0 := fun h0 => hpalne (List.eq_nil_of_length_eq_zero h0)
-    rw [hAdef, (appendMapping_mirror _ _).2.2, appendMapping_maps, if_neg hl]; simp
+    rw [hAdef, (appendMapping_mirror _ _).2.2, appendMapping_maps]
+    by_cases hl : (palindrome ms).maps.length = 0
+    · rw [if_pos hl, List.eq_nil_of_length_eq_zero hl]; simp [Mapping.ofMaps]
+    · rw [if_neg hl]; simp
   have hAself : A.slice A.from_ = A := by
     cases hA' : A with
     | mk maps mirror from_ to =>
       rw [hA'] at hAto
       simp only [Mapping.slice, Option.getD_none] at hAto ⊢
       rw [hAto]
-  have hpalself : (palindrome ms).slice 0 = palindrome ms := by
-    rw [palindrome_eq]; simp [Mapping.slice]; omega
-  have hpreself : (Mapping.ofMaps pre).slice (Mapping.ofMaps pre).from_ = Mapping.ofMaps pre := rfl
-  have hpostself : (Mapping.ofMaps post).slice 0 = Mapping.ofMaps post := rfl
-  -- the whole mapping
-  have hto : (A.appendMapping (Mapping.ofMaps post)).to ≤ (A.appendMapping (Mapping.ofMaps post)).maps.length := by
-    have hl : (Mapping.ofMaps post).maps.length ≠ 0 := fun h0 => hpostne (List.eq_nil_of_length_eq_zero h0)
-    rw [(appendMapping_mirror _ _).2.2, appendMapping_maps, if_neg hl]; simp
-  rw [map_eq_mapResult _ hto,
-    appendMapping_map_spec A _ hA (ofMaps_functional post) hpostne (by rw [hAfrom]; omega),
-    hAself, hpostself, hAdef,
-    appendMapping_map_spec _ _ (ofMaps_functional pre) (palindrome_functional ms) hpalne (Nat.zero_le _),
-    hpreself, hpalself, ofMaps_mapResult]
+  -- the receiver with the undo block maps like the receiver
+  have hAres : ∃ d, A.mapResult p a = some { pos := mapFold pre a p, delInfo := d } := by
+    by_cases hms : ms = []
+    · subst hms
+      have : A = Mapping.ofMaps pre := by rw [hAdef]; exact appendMapping_empty _ _ rfl
+      rw [this, ofMaps_mapResult]
+      exact ⟨_, rfl⟩
+    · have hpalne : (palindrome ms).maps ≠ [] := by
+        rw [(palindrome_isPalindrome ms).maps]
+        cases ms with
+        | nil => exact absurd rfl hms
+        | cons x xs => simp
+      have hpalself : (palindrome ms).slice 0 = palindrome ms := by
+        rw [palindrome_eq]; simp [Mapping.slice]; omega
+      have hpreself : (Mapping.ofMaps pre).slice (Mapping.ofMaps pre).from_ = Mapping.ofMaps pre := rfl
+      rw [hAdef, appendMapping_map_spec _ _ (ofMaps_functional pre) (palindrome_functional ms) hpalne
+        (Nat.zero_le _), hpreself, hpalself, ofMaps_mapResult]
+      simp only [Option.bind_some]
+      have hpal := mirror_roundtrip_chain ms h (mapFold pre a p) a
+      have hne : (palindrome ms).mirror.isEmpty = false := by
+        cases hE : (palindrome ms).mirror.isEmpty with
+        | false => rfl
+        | true =>
+          have := (palindrome_isPalindrome ms).mirror 0 (by have := List.length_pos_iff.mpr hms; omega)
+          rw [getMirrorAux_none_of_nil _ hE] at this
+          cases this
+      simp only [Mapping.map, hne, Bool.false_eq_true, if_false] at hpal
+      cases hq : (palindrome ms).mapResult (mapFold pre a p) a with
+      | none => rw [hq] at hpal; cases hpal
+      | some r =>
+        rw [hq] at hpal
+        simp only [Option.map_some, Option.some.injEq] at hpal
+        exact ⟨delFold pre a p 0 ||| r.delInfo, by simp only [Option.map_some, hpal]⟩
+  obtain ⟨d, hd⟩ := hAres
+  by_cases hpost : post = []
+  · subst hpost
+    rw [appendMapping_empty A _ rfl, map_eq_mapResult A (by omega), hd]
+    rfl
+  · have hpostne : (Mapping.ofMaps post).maps ≠ [] := hpost
+    have hpostself : (Mapping.ofMaps post).slice 0 = Mapping.ofMaps post := rfl
+    have hto : (A.appendMapping (Mapping.ofMaps post)).to ≤ (A.appendMapping (Mapping.ofMaps post)).maps.length := by
+      have hl : (Mapping.ofMaps post).maps.length ≠ 0 := fun h0 => hpostne (List.eq_nil_of_length_eq_zero h0)
+      rw [(appendMapping_mirror _ _).2.2, appendMapping_maps, if_neg hl]; simp
+    rw [map_eq_mapResult _ hto,
+      appendMapping_map_spec A _ hA (ofMaps_functional post) hpostne (by rw [hAfrom]; omega),
+      hAself, hpostself, hd]
+    simp only [Option.bind_some, ofMaps_mapResult, Option.map_some]
+
+/-- non-vacuity: position 4 is moved to 5 by `A`, position 5 lies inside the range `B` deletes; the
+    undo block `B, B⁻¹` between `A` and `C` leaves no trace -/
+example :
+    let A : StepMap := ⟨[(1, 0, 1)], false⟩
+    let B : StepMap := ⟨[(3, 4, 0)], false⟩
+    let C : StepMap := ⟨[(0, 1, 0)], false⟩
+    (∀ m ∈ [B], StrictWF 0 m.ranges) ∧ (B.mapResult (A.map 4 1) 1).deleted = true ∧
+    (((Mapping.ofMaps [A]).appendMapping (palindrome [B])).appendMapping (Mapping.ofMaps [C])).map 4 1 =
+      some 4 ∧ mapFold [C] 1 (mapFold [A] 1 4) = 4 := by
+  intro A B C
+  refine ⟨?_, by decide⟩
+  intro m hm
+  simp only [List.mem_cons, List.not_mem_nil, or_false] at hm
+  subst hm
+  simp [B, StrictWF]
+
+/-- **Mirror shortcut inside a chain, from the start of the walk**: no followed pair leaves the part
+    of the mapping before map `i`; that part produces `r1`; map `i` reports `r1.pos` as deleted and
+    its mirror `j` (its inverse) lies after it inside the mapping.  Then the whole mapping maps like
+    the part before `i` followed by the part after `j`: maps `i … j` are skipped altogether. -/
+theorem mirror_jump_in_chain (mp : Mapping) (i j : Nat) (sm : StepMap) (p a : Int) (r1 : MapResult)
+    (hfi : mp.from_ ≤ i) (hsm : mp.maps[i]? = some sm) (hmir : mp.getMirror i = some j) (hij : i < j)
+    (hjt : j < mp.to) (hcm : mp.maps[j]? = some sm.invert) (hwf : WF 0 sm.ranges)
+    (hns : ∀ k c, k < i → mp.getMirror k = some c → k < c → c < mp.to → c < i)
+    (h1 : (mp.slice mp.from_ (some i)).mapResult p a = some r1)
+    (hdel : (sm.mapResult r1.pos a).deleted = true) :
+    mp.mapResult p a =
+      ((mp.slice (j + 1) (some mp.to)).mapResult r1.pos a).map (fun r2 =>
+        { pos := r2.pos, delInfo := r1.delInfo ||| r2.delInfo }) := by
+  have hself : mp.slice mp.from_ (some mp.to) = mp := by cases mp; rfl
+  rw [← hself, slice_split_spec mp mp.from_ i mp.to hfi (by omega) hns p a, h1]
   simp only [Option.bind_some]
-  -- the undo block returns the position
-  have hpal := mirror_roundtrip_chain ms h (mapFold pre a p) a
-  have hne : (palindrome ms).mirror.isEmpty = false := by
-    cases hE : (palindrome ms).mirror.isEmpty with
-    | false => rfl
-    | true =>
-      have := (palindrome_isPalindrome ms).mirror 0 (by have := List.length_pos_iff.mpr hms; omega)
-      rw [getMirrorAux_none_of_nil _ hE] at this
-      cases this
-  simp only [Mapping.map, hne, Bool.false_eq_true, if_false] at hpal
-  cases hq : (palindrome ms).mapResult (mapFold pre a p) a with
-  | none => rw [hq] at hpal; cases hpal
-  | some r =>
-    rw [hq] at hpal
-    simp only [Option.map_some, Option.some.injEq] at hpal
-    simp only [Option.map_some, Option.bind_some, hpal, ofMaps_mapResult]
+  rw [mirror_jump_spec mp i j mp.to sm r1.pos a hsm hmir hij hjt hcm hwf hdel]
+  rw [hself]
 
 /-- **forward, then back, in one mapping** (`append_mapping_inverted` of a mapping onto itself, no
     mirrors): positions that get no deletion flag on the way out come back -/
